@@ -41,6 +41,11 @@ CHECKS = {
    text="(1) every distinct parameterized string found in the live database, in LookupTerminfo's synthesized colour strings and among the sequences tcell prepares for itself, over its whole parameter domain; (2) all programs of a bounded grammar covering every operator, format, %i, dynamic/static variables across calls and all conditional structures to nesting depth 2 (thorough 3) with else-if chains, x 72 integer / 6 string parameter vectors (about 40k program sequences); (3) all byte strings up to length 5 (6) over the language's 16-symbol alphabet for panics. TParm is compared with a reference interpreter written from terminfo(5); the reference is validated against ncurses tparm on every integer-only case (millions, zero disagreements tolerated silently - any is reported).",
    note="Cases the manual leaves undefined are counted, not compared; ncurses is reached through python3's curses module (if unavailable the run says so in its notes); bounded program size.",
    design="2/C07"),
+ "C15": dict(level="exploration",
+   technique="exhaustive enumeration of padding strings (with a virtual clock), of all entries x positions and of all entries x colour pairs, decoded by per-family reference decoders",
+   text="TPuts: every string up to length 7 (8) over the padding alphabet on terminals with and without a pad character; written bytes must be in the set the statement allows and the recorded (virtual) sleep must equal the sum of the well-formed specifications. TGoto: every database entry x all 301x301 positions against the addressing convention of the entry. TColor: every colour entry x all 302x302 (fg,bg) pairs decoded through the reference terminal's SGR interpreter (folding onto 0-7 on 8-colour terminals, eliding negative / out-of-range components). Complete over the stated domains.",
+   note="terminfo.go is built with package time replaced by a virtual clock (overlay, AST rewrite of the import only); ill-formed-but-terminated padding may be treated either way; non-SGR colour strings are not decoded.",
+   design="2/C15"),
  # --- new checks above this line ---
 }
 
